@@ -128,3 +128,40 @@ def _d1(n, x, m, rules):
                 return T.mul(T.sub(T.func('y0', u), T.div(n, u)), du)
         raise NotEncodable('derivative of %s' % name)
     raise NotEncodable('derivative of op %s' % op)
+
+
+def logd(term, x, rules=None):
+    """Logarithmic derivative (d term/dx)/term computed structurally so that power-law factors never appear:
+       logd(a*b) = logd a + logd b,  logd(a/b) = logd a - logd b,  logd(a**e) = e logd a + e' log a,
+       logd(-a) = logd a,  logd(const) = 0,  logd(exp u) = u';  anything else: (d term)/term."""
+    rules = rules or {}
+    memo = {}
+
+    def go(n):
+        if n in memo:
+            return memo[n]
+        op = n.op
+        if n in rules:
+            r = T.div(rules[n], n)
+        elif op == 'const':
+            r = T.ZERO
+        elif op == 'mul':
+            r = T.add(go(n.args[0]), go(n.args[1]))
+        elif op == 'div':
+            r = T.sub(go(n.args[0]), go(n.args[1]))
+        elif op == 'neg':
+            r = go(n.args[0])
+        elif op == 'pow':
+            b, e = n.args
+            de = d(e, x, rules)
+            r = T.mul(e, go(b))
+            if de is not T.ZERO:
+                r = T.add(r, T.mul(de, T.func('log', b)))
+        elif op == 'fn' and n.args[0] == 'exp':
+            r = d(n.args[1], x, rules)
+        else:
+            dn = d(n, x, rules)
+            r = T.ZERO if dn is T.ZERO else T.div(dn, n)
+        memo[n] = r
+        return r
+    return go(term)
